@@ -275,6 +275,21 @@ namespace hv
         }
     };
 
+    // active trigger, signature-passive level, plain third input (used with a wiring-time passive() marker)
+    struct VSample3
+    {
+        static constexpr auto name = "v_sample3";
+        HV_LIFECYCLE
+        static void eval(In<"trig", TS<Int>> trig, In<"lvl", TS<Int>, InputActivity::Passive> lvl, In<"x", TS<Int>> x,
+                         Scalar<"uid", Int> uid, NodeView nv, DateTime now, Out<TS<Int>> out)
+        {
+            maybe_fault(uid.value(), "eval");
+            Int v = wrap(trig.value() + 2 * lvl.value() + 3 * x.value());
+            out.set(v);
+            log_eval(uid.value(), nv, now, v, trig, lvl, x);
+        }
+    };
+
     // both inputs unchecked: runs whenever either ticks
     struct VGate
     {
